@@ -373,6 +373,13 @@ def run_check(pid, tier, seed, replay=None):
     corpus = list(P.corpus()) if hasattr(P, 'corpus') else []
     gen = list(P.generate(ctx))
     cases = [c for c in corpus + gen if c.key() not in known_keys]
+    # the generated inputs must be a function of the seed alone (so that a replay by seed is exact): their digest goes into
+    # the evidence and tools/determinism.sh compares it across interpreter hash seeds
+    _dg = hashlib.sha256()
+    for c in cases:
+        _dg.update(c.key().encode('utf-8', 'replace')); _dg.update(b'\n')
+    ctx.cases_digest = _dg.hexdigest()[:16]
+    ctx.say('generated %d cases, digest %s' % (len(cases), ctx.cases_digest))
     outs = evaluate_cases(P, ctx, cases)
     corr_bad = [o for o in outs if not o.corr_ok and o.in_domain]
     ood_bad = [o for o in outs if not o.corr_ok and not o.in_domain]
@@ -446,7 +453,7 @@ def run_check(pid, tier, seed, replay=None):
         'distinct_nontrivial': len(distinct) + extra_stats.get('distinct_nontrivial', 0),
         'rule': getattr(P, 'RULE', ''),
         'samples': samples[:6] + extra_stats.get('samples', [])[:4],
-        'distribution': dict(sorted(ctx.dist.items())),
+        'distribution': dict(sorted(ctx.dist.items())), 'cases_digest': getattr(ctx, 'cases_digest', None),
         'model_mismatches': len(corr_bad), 'spec_mismatches': len(prop_bad),
         'out_of_domain_model_mismatches': [o.to_json() for o in ood_bad[:3]], 'out_of_domain_model_mismatch_count': len(ood_bad),
         'known_findings_reproduced': known_lines,
